@@ -30,6 +30,9 @@ func c13ParamTerms(c *C13Case, q0, h0 map[string][]string, ck0 map[string][]stri
 		if p.Schema == nil || (p.In != "query" && p.In != "header" && p.In != "cookie") {
 			continue
 		}
+		if _, isObj := p.Schema.Default.(map[string]any); isObj {
+			continue // object defaults are outside Model/Defaults.populate (Go-side oracle c13DefaultIs)
+		}
 		// the same name declared twice in one location (shadowing aside) is outside the model
 		twice := false
 		for j := range c.Params {
